@@ -6,6 +6,7 @@ import (
 	"crypto/sha256"
 	"errors"
 	"fmt"
+	"os"
 	"sort"
 	"testing"
 	"time"
@@ -199,6 +200,7 @@ type request struct {
 	ids      []scID
 	state    int  // 0 outstanding, 1 released, 2 submitted, 3 dead
 	noSubmit bool // carries fake inputs, can only be released
+	unconf   bool // had an unconfirmed input when it was funded
 }
 
 type world struct {
@@ -1161,6 +1163,7 @@ func (wd *world) opFund(op Op, step int) error {
 		wd.cs.Class("fund=selects-every-confirmed-utxo")
 	}
 	req.ids = ids
+	req.unconf = nUnconf > 0
 	wd.reserve(ids, t0, t1, req.id)
 	wd.reqs = append(wd.reqs, req)
 	return nil
@@ -1278,7 +1281,19 @@ func (wd *world) opSubmit(op Op, step int) error {
 			must, why = false, "input-gone"
 		}
 	}
+	if cross {
+		// A v1 transaction cannot name a parent created by a pooled v2
+		// transaction in one AddPoolTransactions set and vice versa: the pool
+		// API has no mixed sets (and the manager's parent lookups are not meant
+		// for it). Only reachable while both versions are valid. The request
+		// will never be broadcast, so it is released.
+		wd.cs.Excluded("submit:unconfirmed-parent-of-the-other-transaction-version")
+		r.state = 3
+		wd.release(r)
+		return nil
+	}
 	var subErr error
+	rebaseEphemeral := false
 	switch r.kind {
 	case "v1":
 		if !wd.v1Allowed() {
@@ -1294,6 +1309,7 @@ func (wd *world) opSubmit(op Op, step int) error {
 		if bi, ok := wd.cm.BestIndex(r.basis.Height); !ok || bi != r.basis {
 			must, why = false, "basis-reorged-out"
 		}
+		rebaseEphemeral = r.unconf && r.basis != wd.cm.Tip()
 		for i := range r.v2 {
 			wd.w.SignV2Inputs(&r.v2[i], r.toSignV2[i])
 		}
@@ -1310,6 +1326,9 @@ func (wd *world) opSubmit(op Op, step int) error {
 				_, subErr = wd.cm.AddV2PoolTransactions(basis, set)
 			}
 		}
+	}
+	if os.Getenv("VERIF_TRACE") != "" {
+		fmt.Printf("TRACE   submit request #%d %s ids=%v basis=%v must=%v why=%q err=%v\n", r.id, r.kind, r.ids, r.basis, must, why, subErr)
 	}
 	if subErr == nil {
 		r.state = 2
@@ -1328,15 +1347,18 @@ func (wd *world) opSubmit(op Op, step int) error {
 	}
 	r.state = 3
 	wd.release(r) // "invalid or will never be broadcast"
-	switch {
-	case !must:
-		wd.cs.Class("submit=stale-" + why)
+	if must && rebaseEphemeral {
+		// chain.Manager cannot move a set with an ephemeral (unconfirmed) input
+		// across a block that does not confirm the parent: updateTxnProofs
+		// treats the unassigned leaf index as "not in our chain", and
+		// V2TransactionSet validates the pool's parents (proofs at the tip)
+		// against the caller's older basis. That is the manager's rebase
+		// contract (C13), not the wallet's selection.
+		wd.cs.Excluded("submit:v2-request-with-unconfirmed-input-rebased-over-a-block")
 		return nil
-	case cross:
-		// A v1 transaction cannot name a parent created by a pooled v2
-		// transaction in one AddPoolTransactions set and vice versa: the pool
-		// API has no mixed sets. Only reachable while both versions are valid.
-		wd.cs.Excluded("submit:unconfirmed-parent-of-the-other-transaction-version")
+	}
+	if !must {
+		wd.cs.Class("submit=stale-" + why)
 		return nil
 	}
 	return fmt.Errorf("%s: the signed transaction was rejected by the pool: %v", where, subErr)
@@ -1583,7 +1605,11 @@ func (wd *world) opRestart(op Op) error {
 	// reservations live in memory only
 	wd.res = map[scID]resv{}
 	if n := len(wd.cm.V2PoolTransactions()); n > 0 {
-		wd.cs.Class("restart=v2-spend-in-pool-afterwards")
+		wd.cs.Class("restart=v2-transactions-in-pool-afterwards")
+		if op.B%2 == 1 {
+			// the fresh manager's pool was empty: these come from the broadcast sets
+			wd.cs.Class("restart=node:broadcast-sets-reloaded-into-pool")
+		}
 	}
 	return wd.sync()
 }
@@ -1640,6 +1666,9 @@ func runC07(c C07Case, cs *kit.CaseStats) error {
 			continue
 		}
 		cs.Class("op=" + op.K)
+		if os.Getenv("VERIF_TRACE") != "" {
+			fmt.Printf("TRACE step %d %+v -> err=%v tip=%v pool=%d/%d reqs=%d reserved=%d\n", i, op, err, wd.cm.Tip(), len(wd.cm.PoolTransactions()), len(wd.cm.V2PoolTransactions()), len(wd.reqs), len(wd.res))
+		}
 		if err != nil {
 			return err
 		}
